@@ -77,12 +77,16 @@ impl DocumentBuilder {
     fn prefix(
         &mut self,
         prefix: &str,
-        namespace_uri: &str,
+        namespace_uri: StrSpan<'_>,
         span: Span,
         xot: &mut Xot,
     ) -> Result<(), ParseError> {
+        // a namespace declaration is an attribute: its value can contain
+        // references and is normalized like any attribute value
+        let namespace_uri =
+            parse_attribute(namespace_uri.as_str().into(), namespace_uri.start())?;
         let prefix_id = xot.prefix_lookup.get_id_mut(prefix);
-        let namespace_id = xot.namespace_lookup.get_id_mut(namespace_uri);
+        let namespace_id = xot.namespace_lookup.get_id_mut(namespace_uri.as_ref());
         let namespaces = &mut self.element_builder.as_mut().unwrap().namespaces;
         // a namespace declaration is an attribute: it cannot occur twice
         if namespaces.iter().any(|(seen, _)| *seen == prefix_id) {
@@ -712,14 +716,14 @@ impl Xot {
                         if prefix.as_str() == "xmlns" {
                             builder.prefix(
                                 local.as_str(),
-                                value.as_str(),
+                                value,
                                 Span::from_prefix_name(prefix, local),
                                 self,
                             )?;
                         } else if prefix.is_empty() && local.as_str() == "xmlns" {
                             builder.prefix(
                                 "",
-                                value.as_str(),
+                                value,
                                 Span::from_prefix_name(prefix, local),
                                 self,
                             )?;
